@@ -1,13 +1,13 @@
 SPECIFICATION Spec
 CONSTANTS
  MaxUpdates = 0
- MaxReinit = 1 BSChoices = {2} FixBlockSize = TRUE  FixLostWorker = TRUE
+ MaxReinit = 1 BSChoices = {1} FixBlockSize = TRUE  FixLostWorker = TRUE
  CountCalls = TRUE
- NW = 2  NW0 = 2  NWChoices = {2}  BS = 2  Total = 3  Chunk = 1  HdrSz = 1  TailSz = 2
- Timeout = FALSE  Spurious = FALSE  MayFail = TRUE
+ NW = 2  NW0 = 2  NWChoices = {1}  BS = 1  Total = 2  Chunk = 1  HdrSz = 1  TailSz = 2
+ Timeout = FALSE  Spurious = FALSE  MayFail = FALSE
  Gives = {0, 1, 100}  Spaces = {0, 1, 100}
  FlushActs = {}
- MaxCalls = 6
+ MaxCalls = 5
 CONSTRAINT CallBound
 VIEW MCView
 INVARIANTS ProgressTruthful OrderedOutput BlocksPartitionInput BoundariesOnlyWhereRequested FlushCompletes BarrierCompletes FinishCompletes BufErrorOnlyWhenStarved DocumentedCodes QueueBound EndJoinsAll NoLostWorker InBufFits
